@@ -331,7 +331,9 @@ def copy_discipline(ctx, rep, R):
         for c2 in walk_calls(g.node.body):
             if isinstance(c2.func, ast.Attribute) and c2.func.attr in MUTATORS and is_analytics(c2.func.value):
                 n_an += 1
-                rep.check(c2.func.attr in ("setdefault", "update"), R,
+                whole = (c2.func.attr == "pop" and utext(c2.func.value) == "self.markets"
+                         and g.name == "remove_market")
+                rep.check(c2.func.attr in ("setdefault", "update") or whole, R,
                           "%s() on the runner analytics in %s" % (c2.func.attr, key(g, c2)), g, c2,
                           "analytics entries are only ever added while the market is live")
         for s2 in walk_nodes(g.node.body, ast.Delete):
